@@ -31,12 +31,41 @@ def history(start, history, **_):
   return False, "; ".join(lines) + " | well formed after every call"
 
 
+def font_family(item_kinds, **_):
+  import rtc.c15 as R
+  logging.disable(logging.CRITICAL)
+  fails = R.font_family_case(item_kinds)
+  return bool(fails), (f"tts:fontFamily value {R.font_family_value(item_kinds)!r}: " + ("; ".join(fails) if fails else "validated and stored as required"))
+
+
 def heap_cex(op, cls, model=None, obligation=None, kinds=None, **_):
   """rebuild the solver's finite heap with real objects (fields assigned directly: the state is one the representation
   invariant admits, not necessarily one a history reaches), run the operation, judge before/after natively"""
   import ttconv.model as m
   from ttconv.isd import ISD
   from specs import modelwf as W
+  if op == "push_children" and _.get("pattern") is not None:
+    # the classes of the children are constants of the harness: the call is replayed on fresh, detached children of one document
+    pattern = _["pattern"]
+    doc = m.ContentDocument()
+    ruby = getattr(m, cls)(doc)
+    kids = [getattr(m, k)(doc) for k in pattern]
+    if cls == "Ruby":
+      valid = pattern in (["Rb", "Rt"], ["Rb", "Rp", "Rt", "Rp"], ["Rbc", "Rtc"], ["Rbc", "Rtc", "Rtc"])
+    else:
+      valid = all(n == "Rt" for n in pattern) or (len(pattern) > 2 and pattern[0] == pattern[-1] == "Rp" and all(n == "Rt" for n in pattern[1:-1]))
+      if pattern == ["Rp", "Rp"]:
+        return False, "rp rp: both readings of TTML2 accepted"
+    try:
+      ruby.push_children(kids)
+      raised = None
+    except Exception as e:  # pylint: disable=broad-except
+      raised = e
+    got = [type(x).__name__ for x in ruby]
+    text = f"{cls}.push_children({pattern}) on an empty {cls.lower()}: raised {raised!r}; children afterwards {got}; the pattern is {'valid' if valid else 'NOT one of the TTML2 patterns'}"
+    if raised is None:
+      return (not valid) or got != pattern, text
+    return valid or bool(got) or any(k.parent() is not None for k in kids), text
   if not model or "objects" not in model:
     return False, f"obligation {obligation}: the solver gave no finite heap ({model})"
   kinds = kinds or []
